@@ -76,7 +76,7 @@ impl SubCheck for PathApi {
         p.min_props = 0;
         p.max_n = 14;
         p.max_deg = 4;
-        (graph_strategy(p), any::<u8>(), proptest::collection::vec(any::<u16>(), 0..8), 0u8..5, any::<u8>(), any::<u64>())
+        (graph_strategy(p), any::<u8>(), proptest::collection::vec(any::<u16>(), 0..8), 0u8..6, any::<u8>(), any::<u64>())
             .prop_map(|(g, init, walk, corrupt, at, junk)| PathCase { g, init, walk, corrupt, at, junk })
             .boxed()
     }
@@ -108,10 +108,15 @@ impl SubCheck for PathApi {
         ensure!(path_final_state(&gm, &fps).map(|s| s.0) == Some(*states.last().unwrap()), "c19/path/final_state", "final_state of a real execution differs");
         // corrupted inputs
         match c.corrupt {
-            1 | 2 | 3 if !fps.is_empty() => {
+            1 | 2 | 3 | 5 if !fps.is_empty() => {
                 let mut bad = fps.clone();
                 let what;
                 match c.corrupt {
+                    5 => {
+                        // a fingerprint that matches nothing *in front of* a real execution
+                        bad.insert(0, c.junk | 1);
+                        what = "junk_prepended";
+                    }
                     1 => {
                         let i = idx8(c.at, bad.len());
                         bad[i] = c.junk | 1;
@@ -167,7 +172,7 @@ impl SubCheck for PathApi {
         Ok(())
     }
     fn mandatory(&self) -> Vec<&'static str> {
-        vec!["walk_len>=2", "replaced", "head_dropped", "extra_tail", "corrupted_sequence_rejected", "disabled_action_rejected"]
+        vec!["walk_len>=2", "replaced", "head_dropped", "extra_tail", "junk_prepended", "corrupted_sequence_rejected", "disabled_action_rejected"]
     }
 }
 
@@ -402,7 +407,7 @@ impl SubCheck for Explorer {
         p.force_true_always = true;
         p.max_n = 12;
         p.oob_rate = 0;
-        let req = (any::<u8>(), proptest::collection::vec(any::<u16>(), 0..5), 0u8..4, any::<u8>(), any::<u64>());
+        let req = (any::<u8>(), proptest::collection::vec(any::<u16>(), 0..5), 0u8..5, any::<u8>(), any::<u64>());
         (graph_strategy(p), proptest::collection::vec(req, 30..50)).prop_map(|(g, requests)| ExplorerCase { g, requests }).boxed()
     }
     fn workers(&self) -> usize {
@@ -452,6 +457,10 @@ impl SubCheck for Explorer {
                 }
                 2 => {
                     fps.push(*junk | 1);
+                }
+                4 => {
+                    fps.insert(0, *junk | 1);
+                    cov.label("junk_prepended_request");
                 }
                 3 => {
                     text = Some(match at % 3 {
@@ -536,7 +545,7 @@ impl SubCheck for Explorer {
         Ok(())
     }
     fn mandatory(&self) -> Vec<&'static str> {
-        vec!["invalid_sequence_404", "ignored_action_entry", "walk_len>=2", "status_polled", "run_to_completion"]
+        vec!["invalid_sequence_404", "ignored_action_entry", "walk_len>=2", "status_polled", "run_to_completion", "junk_prepended_request"]
     }
 }
 
